@@ -28,7 +28,7 @@ def main():
             for p in props:
                 t0 = time.time()
                 r = sh(["/verif/check", p, "--tier", tier], cwd="/verif")
-                results[p] = (r.returncode, [l for l in r.stdout.splitlines() if l.startswith("VIOLATION") or l.startswith("KNOWN-FINDING")][:6], time.time() - t0, r.stdout)
+                results[p] = (r.returncode, [l for l in r.stdout.splitlines() if l.startswith("VIOLATION")][:4] + [l for l in r.stdout.splitlines() if l.startswith("KNOWN-FINDING")][:3], time.time() - t0, r.stdout)
         finally:
             sh(["git", "-C", "/repo", "checkout", "--", "."])
     else:
@@ -45,7 +45,8 @@ def main():
             for p in props:
                 t0 = time.time()
                 r = sh([t + "/verif/check", p, "--tier", tier], cwd=t + "/verif", env=env)
-                vio = [l for l in r.stdout.splitlines() if l.startswith("VIOLATION") or l.startswith("KNOWN-FINDING")][:6]
+                vio = [l for l in r.stdout.splitlines() if l.startswith("VIOLATION")][:4] + \
+                      [l for l in r.stdout.splitlines() if l.startswith("KNOWN-FINDING")][:3]
                 # keep the replay text (the scratch dir is removed)
                 rep = ""
                 for l in vio:
